@@ -112,6 +112,8 @@ def observe(ctx, batches):
             args += ['-ids', b.ids]
         if getattr(b, 'idsnamed', False):
             args += ['-idsnamed']
+        if getattr(b, 'wholedocs', False):
+            args += ['-wholedocs']
         if b.oddtargets:
             args += ['-oddtargets']
         if b.allfaults:
@@ -157,7 +159,7 @@ def brief(o, v):
 
 def replay_obj(o, v):
     return {'family': 'expander', 'case': o['case'], 'names': o.get('names'), 'spell': o.get('spell'), 'reps': o.get('reps'),
-            'cache': o.get('cache'), 'elem': o.get('elem'), 'site': o.get('site') or '',
+            'cache': o.get('cache'), 'elem': o.get('elem'), 'site': o.get('site') or '', 'flags': o.get('flags') or '',
             'abstract': o['abstract'], 'layout': o['layout'], 'rot': o['rot'], 'opts': o['opts'],
             'entry': o['entry'], 'failurl': o['failurl'], 'preload': o['preload'], 'docurls': o['docurls'],
             'concrete': o['concrete'], 'outcome': o['outcome'], 'err': o['err'], 'detail': o.get('detail', ''),
@@ -190,7 +192,7 @@ def confirm_crashes(ctx, pairs, preds=None):
             w.write(json.dumps({'case': o['case'], 'nodes': o['abstract'], 'layout': o['layout'], 'rot': o['rot'], 'opts': o['opts'],
                                 'entry': o['entry'] or 'ExpandSpec', 'reps': 1, 'failurl': o['failurl'], 'preload': o['preload'],
                                 'names': o.get('names') or 'plain', 'spell': o.get('spell') or 'simple', 'cache': o.get('cache') or 'none',
-                                'site': o.get('site') or ''}) + '\n')
+                                'site': o.get('site') or '', 'flags': o.get('flags') or ''}) + '\n')
     entries = sorted(set(o['entry'] or 'ExpandSpec' for i, o in crashed))
     obsfiles = vlib.run_worker(ctx, 'expander', f, ['-watchdog', '30s', '-entry', ','.join(entries)], shards=min(8, len(crashed)), prefix='confirm')
     again = judge(ctx, obsfiles, preds)
@@ -277,7 +279,10 @@ def s1_batches(ctx, opts, skip_collide=False):
                 Batch(G_N3_D3_WF, ['casefile+casefile', 'sibling+subdir'], opts, rots[:1], reps=1, names='casetwin'),
                 Batch(G_N3_D3_WF, lay2[:9], opts, rots[:1], reps=2, entry='ExpandSpec:nobase,ExpandSpec2:nobase', names=sd['names'], spell=sd['spell']),
                 Batch(G_N3_D3_WF, ['localfile+sibling', 'remote+subdir', 'parent+localfile', 'samepath+samepathq', 'samepathq+samepathq'], opts, rots[:1], reps=1, site='http', spell='varied'),
-                Batch(G_N3_D3_WF, ['samepath+samepathq', 'samepathq+sibling'], opts, rots[:1], reps=1, names=sd['names'], spell=sd['spell'])]
+                Batch(G_N3_D3_WF, ['samepath+samepathq', 'samepathq+sibling'], opts, rots[:1], reps=1, names=sd['names'], spell=sd['spell']),
+                wholeb(Batch(G_N4_S_WF, ORDINARY, opts, rots[:2], reps=2, names=sd['names'], spell='varied')),
+                wholeb(Batch(G_N3_D3_WF, lay2[:9], opts, rots[:1], reps=1, spell=sd['spell'])),
+                Batch(G_N3_ALL_WF, ['otherport', 'sibling'], opts, rots[:2], reps=1, site='http', spell='varied')]
     few = [ALL_LAYOUTS[(ctx.seed + i) % len(ALL_LAYOUTS)] for i in (0, 3, 6)]
     other = 'plain' if sd['names'] == 'special' else 'special'
     return [Batch(G_N3_ALL_WF, ALL_LAYOUTS, opts, [sd['rot']], reps=3, names=sd['names'], spell=sd['spell']),
@@ -290,8 +295,11 @@ def s1_batches(ctx, opts, skip_collide=False):
             Batch(G_N4_S_WF, ['sibling'], opts, [sd['rot']], reps=1, names='casetwin', spell=sd['spell']),
             Batch(G_N3_ALL_WF, ['sibling', 'subdir'], opts, [sd['rot']], reps=1, entry='ExpandSpec:nobase,ExpandSpec2:nobase',
                   names=sd['names'], spell=sd['spell']),
-            Batch(G_N3_ALL_WF, ['localfile', 'sibling', 'samepath', 'samepathq'], opts[:1], [sd['rot']], reps=1, site='http', names=other, spell='varied'),
-            Batch(G_N3_ALL_WF, ['samepath', 'samepathq'], opts[:1], [sd['rot']], reps=1, names=sd['names'], spell=sd['spell'])]
+            Batch(G_N3_ALL_WF, ['localfile', 'sibling', 'samepath', 'samepathq', 'otherport'], opts[:1], [sd['rot']], reps=1, site='http', names=other, spell='varied'),
+            Batch(G_N3_ALL_WF, ['samepath', 'samepathq'], opts[:1], [sd['rot']], reps=1, names=sd['names'], spell=sd['spell']),
+            # documents that ARE a schema, reached by whole-document references ("b1.json", "#")
+            wholeb(Batch(G_N4_S_WF, ['sibling', 'subdir'], opts, [sd['rot']], reps=1, names=sd['names'], spell=sd['spell'])),
+            wholeb(Batch(G_N3_ALL_WF, ['parent', 'remote'], opts, [(sd['rot'] + 1) % 12], reps=1, spell='varied'))]
 
 
 def s1_mc(ctx):
@@ -442,6 +450,11 @@ def idb(b):
     return b
 
 
+def wholeb(b):
+    b.wholedocs = True
+    return b
+
+
 def check_c09(ctx):
     sd = seeded(ctx)
     preds = ['c09keep', 'c09defs', 'c09form', 'c02', 'c09then', 'c03cut']
@@ -530,6 +543,18 @@ def check_c10(ctx):
     rep.nontrivial |= rep2.nontrivial
     for k, n in rep2.counts.items():
         rep.counts['nobase:' + k] = n
+    # unresolvable references (every fault class, one per graph) through the single-element entry points: the same
+    # error discipline as whole-spec expansion, whatever the form in which the root is supplied
+    fb = [Batch(G_N2_ALL_ANY if ctx.tier != 'thorough' else G_N3_ALL_ANY, ['sibling'], ['000'], [sd['rot']], reps=1,
+                entry=ELEMENT_ENTRIES_CWD + ',ExpandSchemaWithBasePath', allfaults=True)]
+    rep3 = run_batches(ctx, fb, ['c08err', 'c08noerr', 'c04', 'c10root'], [], nontrivial=lambda o, v: v['nbad'] > 0)
+    rep.evaluations += rep3.evaluations
+    rep.violations += rep3.violations
+    rep.nontrivial |= rep3.nontrivial
+    for k, n in rep3.hit.items():
+        rep.hit[k] = rep.hit.get(k, 0) + n
+    for k, n in rep3.counts.items():
+        rep.counts['faults:' + k] = n
     # a schema that is its own root (nil root), alone and in sequences through one caller cache
     cache_sequences(ctx, rep)
     return rep.finish(
@@ -699,7 +724,7 @@ def replay(ctx, rec):
     vlib.build_worker(ctx)
     case = {'case': c.get('case', 1), 'nodes': c['abstract'], 'layout': c['layout'], 'rot': c['rot'], 'opts': c['opts'],
             'entry': c['entry'] or 'ExpandSpec', 'reps': c.get('reps') or 2, 'failurl': c['failurl'], 'preload': c['preload'],
-            'names': c.get('names') or 'plain', 'spell': c.get('spell') or 'simple', 'cache': c.get('cache') or 'none', 'site': c.get('site') or ''}
+            'names': c.get('names') or 'plain', 'spell': c.get('spell') or 'simple', 'cache': c.get('cache') or 'none', 'site': c.get('site') or '', 'flags': c.get('flags') or ''}
     f = ctx.path('replay_case.ndjson')
     open(f, 'w').write(json.dumps(case) + '\n')
     obsfiles = vlib.run_worker(ctx, 'expander', f, ['-entry', case['entry']], shards=1, prefix='replay')
